@@ -108,7 +108,30 @@ Fixpoint ref_run (c : nat) (l : list (option A)) (ops : list qop) : list qout :=
   | o :: r => let '(l', out) := ref_step c l o in out :: ref_run c l' r
   end.
 
+(* ---- the wake-up signal of the queue (readyChan) ----
+   push ends with a non-blocking send on readyChan; ready() hands the channel to the consumer.
+   REPAIRED (fixes/C14-ready-signal-not-lost.patch, [buffered = true]): the channel has one slot, so a
+   push leaves a token behind unless one is already there, and the token stays until it is received.
+   Unpatched tree ([buffered = false]): the channel is unbuffered, so with no receiver waiting at that
+   very moment the send is dropped and nothing is left behind.  [SPoll] = a non-blocking receive. *)
+Inductive sop := SOp (o : qop) | SPoll.
+Inductive sout := SOut (o : qout) | SPolled (got : bool).
+Definition s_step (buffered : bool) (s : queue * bool) (o : sop) : (queue * bool) * sout :=
+  match o with
+  | SOp o' =>
+      let '(q', out) := q_step push (fst s) o' in
+      ((q', match o' with QPush _ => buffered || snd s | _ => snd s end), SOut out)
+  | SPoll => ((fst s, false), SPolled (snd s))
+  end.
+Fixpoint s_run (buffered : bool) (s : queue * bool) (ops : list sop) : list sout :=
+  match ops with
+  | [] => []
+  | o :: r => let '(s', out) := s_step buffered s o in out :: s_run buffered s' r
+  end.
+
 End Queue.
+Arguments sop A : clear implicits.
+Arguments sout A : clear implicits.
 Arguments queue A : clear implicits.
 Arguments qop A : clear implicits.
 Arguments qout A : clear implicits.
